@@ -224,6 +224,16 @@ impl World {
     }
 }
 
+/// the remote address a user asks for: mostly plain, sometimes with surrounding whitespace (passed on verbatim)
+fn remote_of(sender: &str, amount: u128) -> String {
+    match amount % 9 {
+        1 => format!(" remote-{}", short(sender)),
+        2 => format!("remote-{}\n", short(sender)),
+        3 => format!("\tremote-{} ", short(sender)),
+        _ => format!("remote-{}", short(sender)),
+    }
+}
+
 fn packet_json(amount: u128, denom: &str, receiver: &str, sender: &str, memo: Option<&str>) -> Binary {
     let mut v = serde_json::json!({"amount": amount.to_string(), "denom": denom, "receiver": receiver, "sender": sender});
     if let Some(m) = memo {
@@ -497,11 +507,11 @@ impl Ics {
                 if *extra_coin {
                     f.push(coin(1, if denom == "uatom" { "uosmo" } else { "uatom" }));
                 }
-                w.c.exec(sender, &ics, &ExecuteMsg::Transfer(TransferMsg { channel: channel.clone(), remote_address: format!("remote-{}", short(sender)), timeout: *timeout, memo: memo.clone() }), &f)
+                w.c.exec(sender, &ics, &ExecuteMsg::Transfer(TransferMsg { channel: channel.clone(), remote_address: remote_of(sender, *amount), timeout: *timeout, memo: memo.clone() }), &f)
             }
             Op::TransferCw20 { token, channel, amount, timeout, memo } => {
                 let t = w.cw20s[*token].clone();
-                let m = TransferMsg { channel: channel.clone(), remote_address: format!("remote-{}", short(sender)), timeout: *timeout, memo: memo.clone() };
+                let m = TransferMsg { channel: channel.clone(), remote_address: remote_of(sender, *amount), timeout: *timeout, memo: memo.clone() };
                 w.c.exec(sender, &t, &cw20::Cw20ExecuteMsg::Send { contract: ics.to_string(), amount: Uint128::new(*amount), msg: to_json_binary(&m).unwrap() }, &[])
             }
             Op::DirectReceive { channel, amount } => {
@@ -621,7 +631,7 @@ impl Ics {
                         && *amount > 0
                         && v["denom"].as_str() == Some(denom.as_str())
                         && v["sender"].as_str() == Some(sender)
-                        && v["receiver"].as_str() == Some(if matches!(op, Op::DirectReceive { .. }) { "remote".to_string() } else { format!("remote-{}", short(sender)) }.as_str())
+                        && v["receiver"].as_str() == Some(if matches!(op, Op::DirectReceive { .. }) { "remote".to_string() } else { remote_of(sender, match op { Op::TransferNative { amount, .. } | Op::TransferCw20 { amount, .. } => *amount, _ => 0 }) }.as_str())
                         && memo_ok
                         && p.timeout_ns == want_timeout
                         && !p.has_block_timeout;
@@ -1292,6 +1302,28 @@ impl Ics {
                         Act::Relay(Op::ReturnVoucher { channel: "channel-1".into(), denom: "uatom".into(), amount: 101, receiver: "@user:2".into() }),
                         Act::AckOk,
                         Act::Relay(Op::ReturnVoucher { channel: "channel-2".into(), denom: "uatom".into(), amount: 50, receiver: "@user:2".into() }),
+                    ],
+                    Some(true),
+                );
+                true
+            }
+            // two colliding channels; a packet sent on channel-1 times out while the refund cannot be paid:
+            // whatever the failed refund leaves behind belongs to channel-1, never to channel-2
+            ("C11", 3) | ("C12", 15) => {
+                let natc = |c: &str, amount: u128| Op::TransferNative { channel: c.into(), denom: "uatom".into(), amount, extra_coin: false, timeout: None, memo: None };
+                self.play_on(
+                    h,
+                    (vec![(0, None)], None),
+                    vec![
+                        Act::Do(1, natc("channel-2", 400)),
+                        Act::AckOk,
+                        Act::Do(0, natc("channel-1", 1000)),
+                        Act::Fault { flaky: false, bank: true },
+                        Act::Tmo,
+                        Act::Fault { flaky: false, bank: false },
+                        Act::Relay(Op::Malicious { channel: "channel-2".into(), denom: "transfer/channel-1/uatom".into(), amount: 1400, receiver: "@user:2".into(), src_port: CP_PORT.into(), src_channel: "channel-1".into(), garbage: false }),
+                        Act::Relay(Op::Malicious { channel: "channel-2".into(), denom: "transfer/channel-1/uatom".into(), amount: 401, receiver: "@user:2".into(), src_port: CP_PORT.into(), src_channel: "channel-1".into(), garbage: false }),
+                        Act::Relay(Op::ReturnVoucher { channel: "channel-2".into(), denom: "uatom".into(), amount: 400, receiver: "@user:2".into() }),
                     ],
                     Some(true),
                 );
